@@ -47,6 +47,9 @@ type pgenWeights struct {
 	rename   int
 	unexp    int
 	recur    int
+	folddup  int // percent of structs that get a field differing from another one only in capitalisation
+	flatten  int // percent of methods whose target flattens a nested source struct (autoMap)
+	update   int // percent of methods declared as update methods
 }
 
 func (g *pgen) edit(s string) { g.edits = append(g.edits, s) }
@@ -74,6 +77,9 @@ func (g *pgen) refsP(t *Ty) bool {
 }
 
 func (g *pgen) newNamed(pkg int, under *Ty, prefix string) int {
+	for under != nil && under.K == "named" { // the underlying type of a named type is never a named type
+		under = g.p.Named[under.ID].Under
+	}
 	if under == nil || g.refsP(under) {
 		pkg = 1
 	}
@@ -107,6 +113,12 @@ func (g *pgen) srcType(depth int) *Ty {
 	case 2:
 		return tPtr(g.srcType(depth + 1))
 	case 3:
+		if g.r.Intn(4) == 0 { // named slice / map type
+			if g.r.Intn(2) == 0 {
+				return tNamed(g.newNamed(g.pkg(), tSlice(g.srcType(depth+2)), "NL"))
+			}
+			return tNamed(g.newNamed(g.pkg(), tMap(tBasic(bkString), g.srcType(depth+2)), "NM"))
+		}
 		return tSlice(g.srcType(depth + 1))
 	case 4:
 		if g.r.Intn(100) < g.weights.arrays {
@@ -137,6 +149,18 @@ func (g *pgen) srcType(depth int) *Ty {
 			used[strings.ToLower(name)] = true
 			fs = append(fs, Field{name, g.srcType(depth + 1)})
 		}
+		if len(fs) > 0 && g.r.Intn(100) < g.weights.folddup { // a second field differing only in capitalisation
+			f0 := fs[g.r.Intn(len(fs))]
+			if len(f0.Name) > 1 && exportedName(f0.Name) {
+				v := f0.Name[:1] + strings.ToUpper(f0.Name[1:])
+				if v == f0.Name {
+					v = f0.Name[:1] + strings.ToLower(f0.Name[1:])
+				}
+				if v != f0.Name {
+					fs = append(fs, Field{v, g.srcType(depth + 2)})
+				}
+			}
+		}
 		st := &Ty{K: "struct", Fields: fs, Pkg: 1}
 		if named {
 			id := g.newNamed(g.pkg(), st, "S")
@@ -157,6 +181,8 @@ func (g *pgen) srcType(depth int) *Ty {
 		return tBasic(genBasics[g.r.Intn(len(genBasics))])
 	}
 }
+
+func exportedName(n string) bool { return n != "" && n[0] >= 'A' && n[0] <= 'Z' }
 
 func (g *pgen) bad() bool { return g.r.Intn(100) < g.weights.mismatch }
 
@@ -211,13 +237,21 @@ func (g *pgen) derive(s *Ty, depth int, path string) *Ty {
 			g.twins[s.ID] = id
 			save := g.inRec
 			g.inRec = true
-			g.p.Named[id].Under = g.derive(d.Under, depth+1, path+"{"+d.Name+"}")
+			u := g.derive(d.Under, depth+1, path+"{"+d.Name+"}")
+			for u.K == "named" {
+				u = g.p.Named[u.ID].Under
+			}
+			g.p.Named[id].Under = u
 			g.inRec = save
 			if g.r.Intn(10) == 0 { // to unnamed struct
 				g.edit(path + ":named-struct-to-unnamed")
 			}
 			return tNamed(id)
 		default:
+			if g.r.Intn(3) == 0 {
+				g.edit(path + ":named-container-to-underlying")
+				return g.derive(d.Under, depth+1, path)
+			}
 			id := g.newNamed(g.pkg(), g.derive(d.Under, depth+1, path), "N")
 			g.twins[s.ID] = id
 			return tNamed(id)
@@ -229,6 +263,10 @@ func (g *pgen) derive(s *Ty, depth int, path string) *Ty {
 		}
 		return tPtr(g.derive(s.Elem, depth+1, path+"*"))
 	case "slice":
+		if g.r.Intn(8) == 0 && !g.inRec {
+			g.edit(path + ":slice-to-named-slice")
+			return tNamed(g.newNamed(g.pkg(), tSlice(g.derive(s.Elem, depth+1, path+"[]")), "NL"))
+		}
 		if g.bad() && !g.inRec {
 			g.edit(path + ":slice-to-array")
 			return tArr(2, g.derive(s.Elem, depth+1, path+"[]"))
@@ -249,7 +287,21 @@ func (g *pgen) derive(s *Ty, depth int, path string) *Ty {
 		return tMap(g.derive(s.Key, depth+3, path+"[k]"), g.derive(s.Elem, depth+1, path+"[v]"))
 	case "struct":
 		var fs []Field
+		merged := map[string]bool{}
+		for i, f := range s.Fields {
+			for j := i + 1; j < len(s.Fields); j++ {
+				if strings.EqualFold(f.Name, s.Fields[j].Name) && g.r.Intn(2) == 0 {
+					merged[f.Name], merged[s.Fields[j].Name] = true, true
+					third := f.Name[:1] + strings.ToLower(f.Name[1:2]) + strings.ToUpper(f.Name[2:])
+					g.edit(path + "." + f.Name + ":merge-case-variants->" + third)
+					fs = append(fs, Field{third, g.derive(f.T, depth+1, path+"."+third)})
+				}
+			}
+		}
 		for _, f := range s.Fields {
+			if merged[f.Name] {
+				continue
+			}
 			x := g.r.Intn(100)
 			switch {
 			case x < g.weights.rename/2:
@@ -316,6 +368,13 @@ func (g *pgen) converter(idx int) *ConvSpec {
 	c := &ConvSpec{Name: fmt.Sprintf("C%d", idx)}
 	c.SamePkg = g.r.Intn(4) == 0
 	c.Lines = g.settingLines(12)
+	if g.weights.update > 0 {
+		for _, zl := range []string{"update:ignoreZeroValueField", "update:ignoreZeroValueField:nillable", "update:ignoreZeroValueField:struct"} {
+			if g.r.Intn(5) == 0 {
+				c.Lines = append(c.Lines, zl)
+			}
+		}
+	}
 	nm := 1 + g.r.Intn(2)
 	for i := 0; i < nm; i++ {
 		g.twins = map[int]int{}
@@ -336,6 +395,48 @@ func (g *pgen) converter(idx int) *ConvSpec {
 			m.Lines = g.settingLines(8)
 		} else if g.r.Intn(3) == 0 {
 			m.Lines = g.settingLines(6)
+		}
+		// flatten a nested struct (or pointer to struct) field of the source into the target: goverter:autoMap F
+		if tu.K == "struct" && su.K == "struct" && tgt.K != "ptr" && g.r.Intn(100) < g.weights.flatten {
+			for _, sf := range su.Fields {
+				inner := g.p.under(sf.T)
+				if inner.K == "ptr" {
+					inner = g.p.under(inner.Elem)
+				}
+				if inner.K != "struct" || len(inner.Fields) == 0 || !exportedName(sf.Name) {
+					continue
+				}
+				var nf []Field
+				for _, tf := range tu.Fields {
+					if tf.Name != sf.Name {
+						nf = append(nf, tf)
+					}
+				}
+				have := map[string]bool{}
+				for _, tf := range nf {
+					have[tf.Name] = true
+				}
+				for _, inf := range inner.Fields {
+					if exportedName(inf.Name) && (!have[inf.Name] || g.r.Intn(3) == 0) && !have["!"+inf.Name] {
+						if !have[inf.Name] {
+							nf = append(nf, Field{inf.Name, g.derive(inf.T, 2, "."+sf.Name+"."+inf.Name)})
+						}
+						have["!"+inf.Name] = true
+					}
+				}
+				nt := &Ty{K: "struct", Fields: nf, Pkg: 1}
+				if tgt.K == "named" {
+					tgt = tNamed(g.newNamed(1, nt, "TF"))
+				} else {
+					tgt = nt
+				}
+				tu = nt
+				m.Tgt = tgt
+				m.Auto = append(m.Auto, sf.Name)
+				m.Lines = append(m.Lines, "autoMap "+sf.Name)
+				g.edit("." + sf.Name + ":flatten (autoMap)")
+				break
+			}
 		}
 		if tu.K == "struct" && su.K == "struct" {
 			srcNames := map[string]bool{}
@@ -369,6 +470,17 @@ func (g *pgen) converter(idx int) *ConvSpec {
 			if g.r.Intn(30) == 0 {
 				m.Lines = append(m.Lines, "ignore Bogus")
 				m.Fields["Bogus"] = &fieldSet{Ignore: true}
+			}
+		}
+		// update method: M(source S, target *T) with S a struct or pointer to struct and T a struct
+		if g.r.Intn(100) < g.weights.update && su.K == "struct" && g.p.under(tgt).K == "struct" {
+			m.Update = true
+			m.Tgt = tPtr(tgt)
+			m.Lines = append([]string{"update target"}, m.Lines...)
+			for _, zl := range []string{"update:ignoreZeroValueField", "update:ignoreZeroValueField:basic", "update:ignoreZeroValueField:struct", "update:ignoreZeroValueField:nillable"} {
+				if g.r.Intn(4) == 0 {
+					m.Lines = append(m.Lines, zl+[]string{"", " yes", " no"}[g.r.Intn(3)])
+				}
 			}
 		}
 		c.Edits = append(c.Edits, g.edits...)
